@@ -66,6 +66,10 @@ type compiler struct {
 	continueTarget *label
 
 	labels []*label
+
+	// fnDecl is the function being compiled; errors that are not caused
+	// by a particular node (encoding limits) are reported at its name.
+	fnDecl *ast.FuncDecl
 }
 
 type label struct {
@@ -78,6 +82,8 @@ type compileError string
 func (e compileError) Error() string { return string(e) }
 
 func (cl *compiler) compileFunc(fn *ast.FuncDecl) *Func {
+	cl.fnDecl = fn
+
 	switch cl.fnType.Results().Len() {
 	case 0:
 		cl.retType = voidType
@@ -810,7 +816,7 @@ func (cl *compiler) linkJumps() {
 		for _, jumpPos := range l.sources {
 			offset := l.targetPos - jumpPos
 			if offset < -32768 || offset > 32767 {
-				panic(compileError(fmt.Sprintf("jump offset %d does not fit into 16 bits", offset)))
+				panic(cl.errorf(cl.fnDecl.Name, "%s: jump offset %d does not fit into 16 bits", cl.fnDecl.Name, offset))
 			}
 			patchPos := jumpPos + 1
 			put16(cl.code, patchPos, offset)
@@ -843,7 +849,7 @@ func (cl *compiler) emitJump(op opcode, l *label) {
 
 func (cl *compiler) emit8(op opcode, arg8 int) {
 	if arg8 < 0 || arg8 > 255 {
-		panic(compileError(fmt.Sprintf("%s operand %d does not fit into 8 bits", op, arg8)))
+		panic(cl.errorf(cl.fnDecl.Name, "%s: %s operand %d does not fit into 8 bits", cl.fnDecl.Name, op, arg8))
 	}
 	cl.emit(op)
 	cl.code = append(cl.code, byte(arg8))
